@@ -8,6 +8,7 @@ mod ebr;
 mod ebrstall;
 mod guardseq;
 mod list;
+mod liststress;
 mod pure;
 mod queue;
 mod rc;
@@ -180,6 +181,10 @@ fn main() {
             }
             o.finish();
             println!("rc-f6: age={} monitor_failures={}", age, nf);
+        }
+        "list-stress" => {
+            let (cycles, _c, fails) = liststress::run(&out, seed, thorough);
+            println!("list-stress: register_exit_cycles={} property_failures={}", cycles, fails);
         }
         "c03" => {
             let (checks, _p, fails) = c03::run(&out, seed, thorough);
